@@ -1,4 +1,4 @@
-package main
+package main_test
 
 // C05 — ELECTRE III indices follow the method's definition.
 
